@@ -123,7 +123,10 @@ class Recorder:
         """[gid, goodness(raw float, ranked later), inbox, tru] ; tru: 1 true fitness, 0 wrong, 2 cutoff sentinel"""
         f = ind.fitness
         if f is None or (isinstance(f, float) and math.isnan(f)):
-            return [self.gid(ind.genome), ("G", math.inf), self.inbox(ind.genome), 3]
+            # NaN is the true fitness of a genome at which the objective is NaN (tru = 1); otherwise 3
+            t = self.truth(ind.genome)
+            tru = 1 if (f is not None and isinstance(t, float) and math.isnan(t)) else 3
+            return [self.gid(ind.genome), ("G", math.inf), self.inbox(ind.genome), tru]
         f = float(f)
         g = self.goodness(f)
         sentinel = math.isinf(f) and ((f < 0) == self.maximize)
